@@ -434,6 +434,21 @@ def inline_calls(facts, hfn, depth=3, budget=6000, skip=()):
             return [beta(x) for x in n]
         return n
 
+    def deref_addr(n):
+        """`*(&mut place)` left behind by substituting an out-parameter is the place itself"""
+        if isinstance(n, dict):
+            n = {k: (v if k in CHILD_SKIP else deref_addr(v)) for k, v in n.items()}
+            if n.get('k') == 'unary' and n.get('op') == 'Deref':
+                inner = n['e']
+                while isinstance(inner, dict) and inner.get('k') == 'block' and not inner.get('stmts') and 'expr' in inner:
+                    inner = inner['expr']
+                if isinstance(inner, dict) and inner.get('k') == 'addr':
+                    return inner['e']
+            return n
+        if isinstance(n, list):
+            return [deref_addr(x) for x in n]
+        return n
+
     def inline(n, d, stack):
         if isinstance(n, dict):
             n2 = {k: (v if k in CHILD_SKIP else inline(v, d, stack)) for k, v in n.items()}
@@ -446,7 +461,7 @@ def inline_calls(facts, hfn, depth=3, budget=6000, skip=()):
                 h2 = facts.hir[dd]
                 mapping = param_mapping(h2, cargs)
                 if (mapping or not h2.get('params')) and _count_nodes(h2['body']) < budget:
-                    body = beta(subst(h2['body'], mapping))
+                    body = deref_addr(beta(subst(h2['body'], mapping)))
                     res = inline(body, d - 1, stack | {dd})
                     if isinstance(res, dict) and res.get('k') == 'block':
                         res = dict(res)
